@@ -293,7 +293,8 @@ def check_step(params, supply0, prefix, op, info):
             head = "write of %s at supply %r: " % (describe(written), supply)
             if truncated:
                 found = [(TRUNCATION_KEY, "; ".join(text for _, text in found))]
-            step.problems += [(key, head + text) for key, text in found]
+            step.problems += [(key, text if index else head + text)
+                              for index, (key, text) in enumerate(found)]
         last_obs, clean = readback, True
         outcome += [
             want_forwarded is None,
@@ -434,11 +435,11 @@ def shard_bfs(args):
                         acc.count("transitions-with-active-limit-or-resync")
                     acc.outcome(step.outcome)
                     if step.problems:
-                        for key in sorted({key for key, _ in step.problems}):
-                            text = "; ".join(t for k, t in step.problems if k == key)
-                            acc.violation(key, "%r, supply %r, history %r: %s"
-                                          % (params, supply0, hist + [op], text),
-                                          dict(base, hist=hist + [op]))
+                        # one key per broken transition: the first clause that fails
+                        text = "; ".join(text for _, text in step.problems)
+                        acc.violation(step.problems[0][0], "%r, supply %r, history %r: %s"
+                                      % (params, supply0, hist + [op], text),
+                                      dict(base, hist=hist + [op]))
                         continue  # a broken state is not explored further
                     if step.key not in seen:
                         seen.add(step.key)
